@@ -8,13 +8,12 @@ GENS = ['units', 'consts']
 TARGETS = ['BC.Props.C11']
 PROP_FILES = ['BC/Props/C11.lean', 'BC/Lemmas/Filter.lean', 'BC/Lemmas/C11.lean', 'BC/Lemmas/C02.lean']
 # source ties: function bodies regenerated from the Python source by translate/t_funcs.py, proved equal to the model functions
-SRC = {'module': 'BC.Props.C11Src', 'file': 'BC/Props/C11Src.lean', 'lemma_files': ['BC/Lemmas/SrcLoop.lean', 'BC/Lemmas/SrcFilter.lean', 'BC/Props/C12Src.lean', 'BC/Props/C05Src.lean', 'BC/Props/C04Src.lean'],
-       'theorems': ['C11_src_iterate', 'C11_src_loop', 'C11_src_should_record', 'C11_src_clear_current_flag']}
+SRC = {'module': 'BC.Props.C11Src', 'file': 'BC/Props/C11Src.lean', 'lemma_files': ['BC/Lemmas/SrcFilter.lean'],
+       'theorems': ['C11_src_should_record', 'C11_src_clear_current_flag']}
 THEOREMS = ['C11_iterate_state', 'C11_loop_on_physical_sequence', 'C11_limit_is_physical', 'C11_range_record', 'C11_extra_superset_step',
             'C11_time_step_keeps_distance_rows', 'C11_extra_superset_iterate', 'C11_extra_superset', 'C11_start_sim', 'C11_extra_superset_rows_tail',
             'C11_extra_superset_rows']
 STATEMENTS = {
-    'C11_src_iterate': 'SOURCE TIE, WHOLE LOOP BODY: the model function iterate (one iteration of the integration loop: wind update, atmosphere, recording, step, limit check) equals Src.loop_body, the entire body of the while loop of _integrate executed symbolically from the Python source on every run, for every loop state (hypotheses: atmosphere look-up answers, the speeds of sound entering velocity/mach are non-zero, the sock horizon is the class constant); C11_src_loop: one unfolding of the model loop = the source while-condition + iterate',
     'C11_src_should_record': 'SOURCE TIE (all C11_src_*): should_record and clear_current_flag as regenerated from the Python source equal the model functions',
     'C11_iterate_state': 'state, wind sock and step by-products after one iteration = the physical step alone, whatever flags / steps / filter state / rows',
     'C11_loop_on_physical_sequence': 'induction over the loop: a completed run ends on physIter of the shot at the first state beyond the bound; only the prefix LENGTH depends on the request',
